@@ -164,10 +164,19 @@ def fibres(dim, tilted=False):
 _JAX_READY = [False]
 
 
+class _NoJax(Exception):
+    pass
+
+
 def _jax():
+    """jax is imported lazily and only inside a worker (never in the parent that forks the pool)."""
     if not _JAX_READY[0]:
         os.environ.setdefault("JAX_PLATFORMS", "cpu")
         os.environ.setdefault("XLA_FLAGS", "--xla_cpu_multi_thread_eigen=false intra_op_parallelism_threads=1")
+        try:
+            import jax  # noqa: F401
+        except ImportError as err:  # optional dependency of EasyFEA: the AutoDiff law is then not available
+            raise _NoJax(str(err))
         from EasyFEA.Models._autodiff import Enable_x64
 
         Enable_x64()
@@ -450,7 +459,11 @@ def describe(tier, seed):
 
 
 def run_case(case):
-    return globals()["_run_" + case["kind"]](case)
+    try:
+        return globals()["_run_" + case["kind"]](case)
+    except _NoJax:
+        return {"violations": [], "fingerprint": "nojax", "nontrivial": False, "outcome": "skipped", "transitions": 0,
+                "skipped": "jax not installed (AutoDiff law unavailable)"}
 
 
 def _cap(v, n=10):
